@@ -44,30 +44,7 @@ def generate(X):
     for name in sorted(handled):
         f, h = handled[name]
         params, never, targets, raises_only = TR.handler_static(h)
-        named = {p for p, k in params if k not in ("VAR_POSITIONAL", "VAR_KEYWORD")}
-        star_dead = any(k in ("VAR_POSITIONAL", "VAR_KEYWORD") and p in never for p, k in params)
-        has_star = any(k in ("VAR_POSITIONAL", "VAR_KEYWORD") for p, k in params)
-        dropped = []
-        try:
-            nsig = inspect.signature(f)
-            for p, prm in nsig.parameters.items():
-                if prm.kind in (prm.VAR_POSITIONAL, prm.VAR_KEYWORD):
-                    pn = ("*" if prm.kind is prm.VAR_POSITIONAL else "**") + p
-                    # numpy's own star parameter: carried by the handler's star parameter of the same kind
-                    hk = "VAR_POSITIONAL" if prm.kind is prm.VAR_POSITIONAL else "VAR_KEYWORD"
-                    hp = [q for q, k in params if k == hk]
-                    if hp and hp[0] in never:
-                        dropped.append(pn)
-                    continue
-                if p in named:
-                    if p in never:
-                        dropped.append(p)
-                elif not has_star or star_dead:
-                    # only the handler's star parameters could carry it
-                    if has_star:
-                        dropped.append(p)
-        except Exception:  # noqa: BLE001
-            pass
+        dropped = TR.static_dropped(f, h)
         statics.append(dict(implements=name, handler=h.__name__, params=params, raises_only=raises_only,
                             static_calls=targets, static_dropped=dropped))
 
